@@ -36,6 +36,9 @@ impl Scenario for C16 {
   fn name(&self) -> &'static str {
     "c16.des"
   }
+  fn weight(&self) -> usize {
+    3
+  }
   fn components(&self) -> (&'static [&'static str], &'static [&'static str]) {
     (
       &["Observer::is_finished of every operator observer on the path", "observable/interval.rs + RepeatTask (poll is_finished before each tick)", "observable/from_iter.rs", "observable/from_stream.rs driver loop", "take/first/element_at/take_while/contains/all/take_until"],
@@ -71,7 +74,7 @@ impl Scenario for C16 {
       }
     };
     let acts = gen_script(rng, n_hot, true, &ScriptCfg { len: (4, 30), cut: (0, 1), post_terminal: true });
-    serde_json::to_value(PCase { threads_flavour: rng.chance(1, 2), fifo: true, n_hot, root, acts, sub_at: 0, closure_subscriber: false, sub_style: 0, finish_after: 0 }).unwrap()
+    serde_json::to_value(PCase { threads_flavour: rng.chance(1, 2), fifo: true, n_hot, root, acts, sub_at: 0, closure_subscriber: false, sub_style: 0, finish_after: 0, panic_at: 0 }).unwrap()
   }
   fn run(&self, case: &Value) -> Result<Outcome, String> {
     let case: PCase = serde_json::from_value(case.clone()).map_err(|e| e.to_string())?;
@@ -197,7 +200,10 @@ impl Scenario for C16 {
 pub fn check_def() -> PropertyCheck {
   PropertyCheck {
     id: "C16",
-    scenarios: vec![Box::new(C16)],
+    scenarios: vec![
+      Box::new(C16),
+      Box::new(crate::props::c02t::C16Threads),
+    ],
     runs: (200_000, 8_000_000),
     rule: "case = early terminator (take, first, element_at, take_while, contains, all, take_until) over a random operator tree (depth <=3/4, catalogue minus share) whose leaves are unbounded interval / interval_at / counting from_iter / counting from_stream / counting from_stream_result producers and hot inputs - so the producer sits in main and in notifier/secondary positions of the two-input operators - driven by a script and then run to idle on a FIFO prompt executor; non-trivial = the subscriber saw its terminal",
     assumptions: vec!["share() is excluded here: it never disconnects its source (C11 known finding)"],
